@@ -68,9 +68,6 @@ Definition coro_wrapped_observe {S} (b : body S) (s0 : S) (ops : list op) :=
 Definition coro_plain_observe {S} (b : body S) (s0 : S) (ops : list op) :=
   observe KCoro (observed b) nokill s0 ops.
 
-(* the language's contract for close(): a body must not yield when GeneratorExit is thrown in *)
-Definition honours_close {S} (b : body S) : Prop :=
-  forall s v s', b s (ThrowE GenExit) <> BYield v s'.
 (* GeneratorExit is delivered by close(), never by an explicit throw() *)
 Definition no_ge_throw (o : op) : bool :=
   match o with OpThrow e => negb (e =? GenExit) | _ => true end.
